@@ -334,6 +334,8 @@ func (p *Pool) forward(message *gen.MailboxMessage) {
 			pid, err := p.Spawn(p.options.WorkerFactory, wopt, p.options.WorkerArgs...)
 			if err != nil {
 				p.Log().Error("unable to spawn new worker process: %s", err)
+				// keep the slot: the next message that gets to it tries again
+				p.pool.Push(v)
 				continue
 			}
 			p.Forward(pid, message, gen.MessagePriorityNormal)
